@@ -435,7 +435,13 @@ func c08Parallel() int {
 	return n
 }
 
-// c08Spaces: the enumerated scenario spaces of a tier.
+// c08Spaces: the enumerated scenario spaces of a tier, most expensive first.
+//
+//	base     every schedule with at most ONE deviation of any kind (out-of-order
+//	         delivery, early tick, early hold resolution, slow wire, cut, restart)
+//	deep     at most TWO deviations of any kind, up to two of them faults
+//	product  one slow wire (fz ... un) combined with one fault at any later or
+//	         earlier point; sharded by (wire, fault kind)
 func c08Spaces(thorough bool) []c08Scn {
 	const (
 		sat      = 1000
@@ -447,64 +453,111 @@ func c08Spaces(thorough bool) []c08Scn {
 		large    = 100_000_000 * sat // 1 BTC
 	)
 	var out []c08Scn
-	add := func(name string, dev, faults int, pays ...c08Pay) {
-		out = append(out, c08Scn{Name: name, Pays: pays, Dev: dev, Faults: faults, Total: dev})
+	base := func(name string, pays ...c08Pay) {
+		out = append(out, c08Scn{Name: "base/" + name, Pays: pays, Dev: 1, Faults: 1, Total: 1, Freeze: true})
 	}
-	dev, faults := 1, 1
-	if thorough {
-		dev, faults = 2, 2
+	deep := func(name string, pays ...c08Pay) {
+		out = append(out, c08Scn{Name: "deep/" + name, Pays: pays, Dev: 2, Faults: 2, Total: 2, Freeze: true})
 	}
-	kinds := []string{"valid", "unknown", "wrongamt", "holdsettle", "holdcancel"}
-	amts := []int64{dustLo, dustMid, nonDust, large}
-	// 1. single payments: every kind x amount x direction
-	for _, dir := range []string{"AC", "CA"} {
-		for _, k := range kinds {
-			for _, a := range amts {
-				if !thorough && dir == "CA" && (a == dustMid || a == large) {
-					continue
-				}
-				if !thorough && (k == "wrongamt" || k == "holdcancel") && a != nonDust {
-					continue
-				}
-				add(fmt.Sprintf("1p/%s/%s/%d", dir, k, a/sat), dev, faults, c08Pay{dir, a, k, 0})
+	product := func(name string, wires []string, pays ...c08Pay) {
+		faults := []string{"rb", "cut:AB", "cut:BC"}
+		if !thorough {
+			// the restart is the fault that loses Bob's in-memory state; the cut
+			// products are left to the thorough tier
+			faults = faults[:1]
+		}
+		for _, f := range faults {
+			for _, wn := range wires {
+				out = append(out, c08Scn{Name: fmt.Sprintf("product/%s/fz=%s/fault=%s", name, wn, f), Pays: pays,
+					Dev: 1, Faults: 1, Total: 2, Freeze: true, OnlyFreeze: true,
+					FaultKinds: []string{f}, FreezeWires: []string{wn}})
 			}
 		}
-		add(fmt.Sprintf("1p/%s/valid/belowmin", dir), dev, faults, c08Pay{dir, belowMin, "valid", 0})
-		add(fmt.Sprintf("1p/%s/valid/polmin", dir), dev, faults, c08Pay{dir, polMin, "valid", 0})
 	}
-	// 2. two payments: same and opposite directions, second one launched at
-	// several points of the first one's life
-	type pair struct{ k0, k1 string }
-	pairs := []pair{{"valid", "valid"}, {"valid", "unknown"}, {"holdsettle", "valid"}, {"holdcancel", "valid"}}
-	if thorough {
-		pairs = append(pairs, pair{"unknown", "unknown"}, pair{"holdsettle", "holdcancel"}, pair{"wrongamt", "valid"})
-	}
-	ats := []int{0, 6, 14}
-	if thorough {
-		ats = []int{0, 3, 6, 10, 14, 20}
-	}
-	for _, dirs := range [][2]string{{"AC", "AC"}, {"AC", "CA"}, {"CA", "AC"}} {
-		if !thorough && dirs[0] == "CA" {
-			continue
+	allWires := c08WireName[:]
+	pname := func(pays ...c08Pay) string {
+		var d, k, a, at []string
+		for _, p := range pays {
+			d = append(d, p.Dir)
+			k = append(k, p.Kind)
+			a = append(a, strconv.FormatInt(p.Amt/sat, 10))
+			at = append(at, strconv.Itoa(p.At))
 		}
+		return fmt.Sprintf("%dp/%s/%s/%s/at%s", len(pays), strings.Join(d, "+"), strings.Join(k, "+"), strings.Join(a, "+"), at[len(at)-1])
+	}
+
+	// ---- product spaces (two payments, slow wire x fault) --------------------------
+	type pair struct{ k0, k1 string }
+	two := func(d0, d1 string, pr pair, a1 int64, at int) []c08Pay {
+		return []c08Pay{{d0, nonDust, pr.k0, 0}, {d1, a1, pr.k1, at}}
+	}
+	if !thorough {
+		ps := two("AC", "AC", pair{"valid", "valid"}, nonDust, 6)
+		product(pname(ps...), allWires, ps...)
+	} else {
+		for _, dirs := range [][2]string{{"AC", "AC"}, {"AC", "CA"}, {"CA", "AC"}} {
+			for _, pr := range []pair{{"valid", "valid"}, {"holdsettle", "valid"}, {"valid", "unknown"}, {"holdcancel", "valid"}} {
+				ats := []int{6}
+				if pr.k0 == "valid" && pr.k1 == "valid" && dirs[0] == "AC" {
+					ats = []int{0, 6, 14}
+				}
+				for _, at := range ats {
+					ps := two(dirs[0], dirs[1], pr, nonDust, at)
+					product(pname(ps...), allWires, ps...)
+				}
+			}
+		}
+	}
+
+	// ---- single payments ------------------------------------------------------------
+	kinds := []string{"valid", "unknown", "wrongamt", "holdsettle", "holdcancel"}
+	for _, dir := range []string{"AC", "CA"} {
+		for _, k := range kinds {
+			for _, a := range []int64{dustLo, dustMid, nonDust, large} {
+				p := c08Pay{dir, a, k, 0}
+				twoAmts := a == dustLo || a == nonDust
+				switch {
+				case thorough && twoAmts:
+					deep(pname(p), p)
+				case thorough:
+					base(pname(p), p)
+				case k == "valid" && (dir == "AC" || twoAmts):
+					base(pname(p), p)
+				case (k == "unknown" || k == "holdsettle") && twoAmts && (dir == "AC" || a == nonDust):
+					base(pname(p), p)
+				case a == nonDust:
+					base(pname(p), p)
+				}
+			}
+		}
+		for _, a := range []int64{belowMin, polMin} {
+			p := c08Pay{dir, a, "valid", 0}
+			if thorough {
+				deep(pname(p), p)
+			} else {
+				base(pname(p), p)
+			}
+		}
+	}
+
+	// ---- two payments, one deviation ---------------------------------------------------
+	pairs := []pair{{"valid", "valid"}, {"valid", "unknown"}, {"holdsettle", "valid"}, {"holdcancel", "valid"}}
+	ats := []int{0, 6, 14}
+	dirsList := [][2]string{{"AC", "AC"}, {"AC", "CA"}}
+	if thorough {
+		pairs = append(pairs, pair{"unknown", "unknown"}, pair{"holdsettle", "holdcancel"}, pair{"wrongamt", "valid"}, pair{"holdsettle", "holdsettle"})
+		ats = []int{0, 3, 6, 10, 14, 20}
+		dirsList = append(dirsList, [2]string{"CA", "AC"}, [2]string{"CA", "CA"})
+	}
+	for _, dirs := range dirsList {
 		for _, pr := range pairs {
 			for _, at := range ats {
 				for _, a1 := range []int64{nonDust, dustLo} {
-					if !thorough && a1 == dustLo && (at != 6 || pr.k0 != "valid") {
+					if a1 == dustLo && (at != 6 || (!thorough && pr.k0 != "valid")) {
 						continue
 					}
-					d2, f2 := dev, faults
-					if thorough {
-						// two payments with two deviations and two faults is too large for the
-						// tier; the second fault is kept, the deviation bound stays 2 only for
-						// the simultaneous launch.
-						if at != 0 {
-							d2 = 2
-							f2 = 1
-						}
-					}
-					add(fmt.Sprintf("2p/%s+%s/%s+%s/%d+%d/at%d", dirs[0], dirs[1], pr.k0, pr.k1, nonDust/sat, a1/sat, at),
-						d2, f2, c08Pay{dirs[0], nonDust, pr.k0, 0}, c08Pay{dirs[1], a1, pr.k1, at})
+					ps := two(dirs[0], dirs[1], pr, a1, at)
+					base(pname(ps...), ps...)
 				}
 			}
 		}
@@ -519,10 +572,10 @@ func c08GateCases() []c08Job {
 	hold := c08Pay{"AC", 20_000_000, "holdsettle", 0}
 	unk := c08Pay{"CA", 20_000_000, "unknown", 4}
 	return []c08Job{
-		{Mode: "replay", Scn: c08Scn{Name: "gate/2p-default", Pays: []c08Pay{valid, back}, Faults: 2}},
-		{Mode: "replay", Scn: c08Scn{Name: "gate/2p-cutBC+restartBob", Pays: []c08Pay{valid, back}, Faults: 2},
+		{Mode: "replay", Scn: c08Scn{Name: "gate/2p-default", Pays: []c08Pay{valid, back}, Faults: 2, Dev: 2}},
+		{Mode: "replay", Scn: c08Scn{Name: "gate/2p-cutBC+restartBob", Pays: []c08Pay{valid, back}, Faults: 2, Dev: 2},
 			Hist: strings.Fields("pay0 d:A>B T d:A>B d:B>A d:B>A pay1 d:A>B cut:BC d:B>C d:C>B d:C>B d:B>C T d:B>C d:C>B d:C>B d:B>C d:B>C d:C>B d:C>B rb")},
-		{Mode: "replay", Scn: c08Scn{Name: "gate/hold+unknown-cutAB", Pays: []c08Pay{hold, unk}, Faults: 2},
+		{Mode: "replay", Scn: c08Scn{Name: "gate/hold+unknown-cutAB", Pays: []c08Pay{hold, unk}, Faults: 2, Dev: 2},
 			Hist: strings.Fields("pay0 d:A>B T d:A>B pay1 d:B>A T cut:AB")},
 	}
 }
@@ -648,7 +701,7 @@ func TestC08(t *testing.T) {
 		skipped  []string
 		broken   []string
 		sem      = make(chan struct{}, c08Parallel())
-		perSpace = budget / 3
+		perSpace = budget * 6 / 10
 	)
 	for _, sp := range spaces {
 		if time.Now().After(deadline) {
